@@ -38,8 +38,14 @@ def gen_case(rng, multi=False):
     if multi and rng.chance(1, 3):
         # a group that contributes no polygon at all (one empty path): the region is unchanged by it
         groups.insert(rng.below(len(groups) + 1), dict(jt=jt, et=0, paths=[[]]))
+    if rng.chance(1, 4):
+        # the same polygons written with repeated vertices / a repeated closing vertex
+        for g in groups:
+            g['paths'] = [oc.add_dups(rng, p, True) for p in g['paths']]
+    # the options reach the object through the constructor, through the public setters, or through the setters after an
+    # Execute with other options
     return dict(ml=rng.choice([0.5, 1, 2, 5]), at=rng.choice([0, 0.25, 5]), pc=int(rng.chance(1, 6)), rev=int(rng.chance(1, 4)), delta=dl,
-                groups=groups, orient=(-1 if reverse else 1))
+                groups=groups, orient=(-1 if reverse else 1), via=rng.choice([0, 0, 0, 1, 1, 2]))
 
 
 def gen_far_case(rng):
@@ -78,6 +84,8 @@ def raw_cases(rng, n):
         dl = rng.choice([0.5, 1, 2.5, S / 16, S / 3, S]) * (1 if rng.chance(1, 2) else -1)
         if rng.chance(1, 3):
             dl = dl * (1 + rng.below(1000) / 997.0)
+        if rng.chance(1, 5):
+            ps = [oc.add_dups(rng, p, True) for p in ps]
         cs.append(dict(ml=rng.choice([0.5, 1, 2, 5, 1.7]), at=rng.choice([0, 0.25, 5, 0.1]), delta=dl, jt=rng.below(4), et=0, paths=ps))
     return cs
 
@@ -168,6 +176,7 @@ def run(ctx):
         ctx.hist('npaths', sum(len(g['paths']) for g in c['groups']))
         ctx.hist('delta_decade', 'e%d' % int(math.floor(math.log10(abs(c['delta'])))))
         ctx.hist('orientation', 'reversed' if c['orient'] < 0 else 'positive')
+        ctx.hist('options_via', ['constructor', 'setters', 'setters after an Execute'][c.get('via', 0)])
         if r.get('ok') and not r.get('sol') and abs(c['delta']) >= 0.5 and c['delta'] < 0:
             ctx.count('shrunk_to_nothing', 1)
         if r.get('ncover', 0) > 0 and r.get('nuncover', 0) > 0:
@@ -195,7 +204,11 @@ def run(ctx):
     ctx.log('locality: %d cases, %d differ' % (len(far), nb))
 
     # plan tie on polygon groups (observer)
-    nbreak, _ = oc.plan_tie(ctx, T, [gen_case(r3, multi=True) for _ in range(B['plan'])] + far[:200], 'C06 plan', 'c06-plan')
+    pcs = [gen_case(r3, multi=True) for _ in range(B['plan'])] + far[:200]
+    for c in pcs:
+        if c.get('via') == 2:
+            c['via'] = 1          # the plan model starts from the members of a fresh object
+    nbreak, _ = oc.plan_tie(ctx, T, pcs, 'C06 plan', 'c06-plan')
     ctx.log('plan tie: %d breaks' % nbreak)
 
     # raw curve tie, bit exact
@@ -215,7 +228,8 @@ def run(ctx):
     ctx.cov['rule'] = ('seeded random simple polygons with holes (star-shaped, spiky and rectilinear/sheared outlines, 0-2 star holes, 1-3 polygons with random gaps, '
                        '5 coordinate scales), validity (simple, disjoint, nesting, every turn >= 10 degrees from a reversal) decided by exact integer tests; '
                        'both orientation conventions, delta in {0.49,0.5,0.51,1,...,2x scale} of both signs, 4 joins, miter limits {0.5,1,2,5}, arc tolerances {0,0.25,5}, '
-                       'ReverseSolution, PreserveCollinear; a case is non-trivial when its sample set contains both points the property requires covered and points it '
+                       'ReverseSolution, PreserveCollinear, options supplied by the constructor / by the public setters / by the setters after an Execute with other options; '
+                       'a quarter of the inputs written with repeated vertices and a repeated closing vertex; a case is non-trivial when its sample set contains both points the property requires covered and points it '
                        'requires uncovered; distinct = distinct (configuration, input)')
     ctx.assumptions += [
         'binary64 arithmetic of the g++ -O1 -ffp-contract=off build equals Coq primitive floats (self-tested every run on %d operations)' % ctx.cov.get('ieee_ops_compared', 0),
